@@ -388,7 +388,10 @@ class CommonMeshAdapter:
         from armi.reactor.converters.uniformMesh import UniformMeshGenerator
 
         c = p["c"]
-        r = self.build(c, hc)
+        key = json.dumps([c["f"], c["k"], c["c4"], c["g"], hc])
+        if getattr(self, "_last", (None, None))[0] != key:  # cases that differ only in the minimum size share the core (it is only read)
+            self._last = (key, self.build(c, hc))
+        r = self._last[1]
         gen = UniformMeshGenerator(r, minimumMeshSize=c["min"] * CU / 2.0)
         stage = "avg"
         try:
@@ -467,13 +470,15 @@ def run(rep, tier, seed):
             _TLC_CACHE[(m, "sany")] = True
     rep.exhaustive = True
 
-    # every TLC run is started up front (they are independent); the exhaustive ones get the bigger share of the cores
+    # every TLC run is started up front (they are independent); emission runs first, so that the replay of their states on
+    # real objects overlaps with the exhaustive runs
+    import time
+
+    rep.extra["phase_wall_s"] = {}
+    pool = ThreadPoolExecutor(max_workers=5)
     jobs = {}
-    with ThreadPoolExecutor(max_workers=4) as pool:
+    try:
         if "remesh" in parts:
-            if not _ST["on"]:
-                for cfg, _acts in T["remesh_mc"]:
-                    jobs[cfg] = pool.submit(_tlc, "AxialRemesh_mc", cfg, 8, False)
             for cfg, _zu, _lab in T["remesh_emit"]:
                 jobs[cfg] = pool.submit(_tlc, "AxialRemesh_mc", cfg, 1, True)
         if "resample" in parts:
@@ -482,40 +487,45 @@ def run(rep, tier, seed):
             jobs[T["filter"]] = pool.submit(_tlc, "FilterMesh", T["filter"], 1, True)
         if "common" in parts:
             jobs[T["common"][0]] = pool.submit(_tlc, "CommonMesh", T["common"][0], 1, True)
-    res = {cfg: f.result() for cfg, f in jobs.items()}
-    for cfg, r in res.items():
-        rep.add_tlc(cfg, r)
-        if r.violation:
-            rep.violation("tlc:%s:%s" % (cfg.split(".")[0], r.violation["name"]),
-                          "TLC: %s violated in the specification (%s)" % (r.violation["name"], cfg),
-                          {"direction": "tlc", "cfg": cfg, "trace": r.violation["trace"][:20000]})
-        if r.distinct == 0:
-            raise tlc.MachineryError("no states in " + cfg)
+        if "remesh" in parts and not _ST["on"]:
+            for cfg, _acts in T["remesh_mc"]:
+                jobs[cfg] = pool.submit(_tlc, "AxialRemesh_mc", cfg, 8, False)
 
-    import time
+        def result(cfg):
+            t = time.time()
+            r = jobs[cfg].result()
+            rep.extra["phase_wall_s"]["wait:" + cfg] = round(time.time() - t, 1)
+            rep.add_tlc(cfg, r)
+            if r.violation:
+                rep.violation("tlc:%s:%s" % (cfg.split(".")[0], r.violation["name"]),
+                              "TLC: %s violated in the specification (%s)" % (r.violation["name"], cfg),
+                              {"direction": "tlc", "cfg": cfg, "trace": r.violation["trace"][:20000]})
+            if r.distinct == 0:
+                raise tlc.MachineryError("no states in " + cfg)
+            return r
 
-    t_tlc = time.time()
-    rep.extra["phase_wall_s"] = {"tlc_all_runs_concurrent": round(t_tlc - rep.t0, 1)}
+        def timed(label, fn, *a):
+            t = time.time()
+            fn(*a)
+            rep.extra["phase_wall_s"][label] = round(time.time() - t, 1)
 
-    def timed(label, fn, *a):
-        t = time.time()
-        fn(*a)
-        rep.extra["phase_wall_s"][label] = round(time.time() - t, 1)
-
-    if "remesh" in parts:
-        if not _ST["on"]:
-            for cfg, acts in T["remesh_mc"]:
-                never = [a for a in acts if res[cfg].coverage.get(a, (0, 0))[1] == 0]
-                if never and not res[cfg].violation:
-                    raise tlc.MachineryError("vacuous: actions never taken in %s: %s" % (cfg, never))
-        for cfg, zu, label in T["remesh_emit"]:
-            timed("replay:" + label, _replay_remesh, rep, res[cfg], zu, label, cfg)
-    if "resample" in parts:
-        timed("resample", _check_resample, rep, res[T["resample"]])
-    if "filter" in parts:
-        timed("filter", _check_filter, rep, res[T["filter"]], random.Random(seed))
-    if "common" in parts:
-        timed("common", _check_common, rep, res[T["common"][0]], T["common"][1])
+        if "resample" in parts:
+            timed("resample", _check_resample, rep, result(T["resample"]))
+        if "filter" in parts:
+            timed("filter", _check_filter, rep, result(T["filter"]), random.Random(seed))
+        if "common" in parts:
+            timed("common", _check_common, rep, result(T["common"][0]), T["common"][1])
+        if "remesh" in parts:
+            for cfg, zu, label in T["remesh_emit"]:
+                timed("replay:" + label, _replay_remesh, rep, result(cfg), zu, label, cfg)
+            if not _ST["on"]:
+                for cfg, acts in T["remesh_mc"]:
+                    r = result(cfg)
+                    never = [a for a in acts if r.coverage.get(a, (0, 0))[1] == 0]
+                    if never and not r.violation:
+                        raise tlc.MachineryError("vacuous: actions never taken in %s: %s" % (cfg, never))
+    finally:
+        pool.shutdown(wait=True)
     rep.assume(
         "one assembly, all blocks with the same cross-section (hexagonal cell fully filled: pins, duct, coolant, inter-coolant)",
         "windows of getBlocksBetweenElevations / elevations of getBlockAtElevation inside the assembly (0 <= lo < hi <= top)",
@@ -619,6 +629,7 @@ def _check_common(rep, r, hc):
         raise tlc.MachineryError("common-mesh cases vacuous: outcomes %s" % outcomes)
     ad = CommonMeshAdapter()
     n = nt = 0
+    cases = sorted(cases, key=lambda p: json.dumps([p["c"]["f"], p["c"]["k"], p["c"]["c4"], p["c"]["g"], p["c"]["min"]]))
     for p in cases:
         if _ST["stride"] > 1 and n % 3:
             n += 1
@@ -721,6 +732,8 @@ def selftest():
         ("remesh", "getBlocksBetweenElevations: touching blocks reported with zero overlap", lambda: M(A, "getBlocksBetweenElevations", "> EPS:", ">= 0.0:")),
         ("remesh", "getBlocksBetweenElevations: height check removed and upper clip forgotten",
          lambda: M(A, "getBlocksBetweenElevations", "top = min(b.p.ztop, zUpper)", "top = b.p.ztop")),
+        ("remesh", "getBlocksBetweenElevations: height check by exact equality (only nearly coincident points notice)",
+         lambda: M(A, "getBlocksBetweenElevations", "if abs(totalHeight - expectedHeight) > 1e-5:", "if totalHeight != expectedHeight:")),
         ("remesh", "setAssemblyStateFromOverlaps: integrated/averaged denominators swapped",
          lambda: M(C, "setAssemblyStateFromOverlaps", "if paramMapper.isVolIntegrated[paramName]:", "if not paramMapper.isVolIntegrated[paramName]:")),
         ("remesh", "setAssemblyStateFromOverlaps: peak parameters averaged", lambda: M(C, "setAssemblyStateFromOverlaps", "if paramMapper.isPeak[paramName]:", "if False:")),
